@@ -151,7 +151,13 @@ type evalWorker struct {
 	out      *bufio.Reader
 	errBuf   *bytes.Buffer
 	Restarts int
+	NotRun   int // jobs not run because the budget of restarts was used up
 }
+
+// maxRestarts bounds what a tree whose streaming client dies in very many distinct groups
+// of cases costs (a restart is some 30 ms); beyond it the remaining streaming cases are not
+// run, and the evidence says so (exhaustive: false). The verdict is a violation long since.
+const maxRestarts = 400
 
 var iso evalWorker
 
@@ -161,7 +167,9 @@ func (w *evalWorker) start() error {
 		return err
 	}
 	cmd := exec.Command(exe, evalChildFlag)
-	cmd.Env = append(os.Environ(), "GOMAXPROCS=4")
+	// one P: a streaming call is a chain of hand-overs between the caller and the client's own
+	// goroutine, several times cheaper when both run on the same P
+	cmd.Env = append(os.Environ(), "GOMAXPROCS=1")
 	w.errBuf = &bytes.Buffer{}
 	cmd.Stderr = w.errBuf
 	if w.in, err = cmd.StdinPipe(); err != nil {
@@ -242,6 +250,10 @@ func isolatedBatch(kind string, jobs []isoJob, seen func(group string) bool) [][
 		}
 		next = len(jobs)
 		if len(idx) == 0 {
+			break
+		}
+		if iso.Restarts >= maxRestarts {
+			iso.NotRun += len(idx)
 			break
 		}
 		if iso.cmd == nil {
